@@ -46,7 +46,7 @@ def cases(tier, seed):
     for op in COMBOS:
         for dt in INT_DT + FLT_DT:
             for mode in ('one_frame', 'distance', 'two_frames', 'same'):
-                out.append(dict(gen='combo', op=op, dtype=dt, mode=mode, extremes=True, sub=core.subseed('C18', seed, k), must=True))
+                out.append(dict(gen='combo', op=op, dtype=dt, mode=mode, extremes=True, decoys=bool(k % 2), sub=core.subseed('C18', seed, k), must=True))
                 k += 1
     for op in TIMEFREQ:
         for dt in ('uint8', 'int16', 'float32', 'float64'):
@@ -57,6 +57,18 @@ def cases(tier, seed):
         for dt in INT_DT + FLT_DT:
             out.append(dict(gen='first', op=op, dtype=dt, extremes=True, sub=core.subseed('C18', seed, k), must=True))
             k += 1
+    # traces stored in the other byte order (big-endian acquisition dumps): same values, same results
+    for op in COMBOS:
+        for dt in ('int16', 'uint32', 'float32', 'float64'):
+            out.append(dict(gen='combo', op=op, dtype=dt, mode=['one_frame', 'distance', 'two_frames', 'same'][k % 4], extremes=bool(k % 2), swapped=True, sub=core.subseed('C18', seed, k), must=True))
+            k += 1
+    for op in ('square', 'ToPower', 'CenterOn', 'StandardizeOn', 'center', 'standardize', 'fft_modulus'):
+        for dt in ('int16', 'float32'):
+            out.append(dict(gen='first', op=op, dtype=dt, extremes=bool(k % 2), swapped=True, sub=core.subseed('C18', seed, k), must=True))
+            k += 1
+    for op in TIMEFREQ:
+        out.append(dict(gen='timefreq', op=op, dtype=['int16', 'float32', 'float64'][k % 3], parity='even', swapped=True, sub=core.subseed('C18', seed, k), must=True))
+        k += 1
     rs = np.random.default_rng(core.subseed('C18r', seed))
     n_rand = 4000 if tier == 'quick' else 60000
     for j in range(n_rand):
@@ -64,7 +76,7 @@ def cases(tier, seed):
         dt = (INT_DT + FLT_DT)[int(rs.integers(9))]
         if r < 0.55:
             out.append(dict(gen='combo', op=COMBOS[int(rs.integers(4))], dtype=dt, mode=['one_frame', 'distance', 'two_frames', 'same'][int(rs.integers(4))],
-                            extremes=bool(rs.random() < 0.5), sub=int(rs.integers(2 ** 62))))
+                            extremes=bool(rs.random() < 0.5), decoys=bool(rs.random() < 0.4), swapped=bool(rs.random() < 0.1), sub=int(rs.integers(2 ** 62))))
         elif r < 0.8:
             out.append(dict(gen='timefreq', op=TIMEFREQ[int(rs.integers(6))], dtype=dt, parity=['even', 'odd'][int(rs.integers(2))], sub=int(rs.integers(2 ** 62))))
         else:
@@ -74,7 +86,14 @@ def cases(tier, seed):
 
 
 # ---------------------------------------------------------------------------------------------------------
-def _traces(rng, n, L, dt, extremes):
+def _traces(rng, n, L, dt, extremes, swapped=False):
+    a = _traces_native(rng, n, L, dt, extremes)
+    if swapped and a.dtype.itemsize > 1:
+        a = a.astype(a.dtype.newbyteorder())          # same values, stored in the other byte order
+    return a
+
+
+def _traces_native(rng, n, L, dt, extremes):
     d = np.dtype(dt)
     if d.kind in 'iu':
         lo, hi = gen.dtype_range(dt)
@@ -229,7 +248,7 @@ def run_combo(case):
     op, dt, mode = case['op'], case['dtype'], case['mode']
     n = int(rng.integers(1, 10))
     L = int(rng.integers(1, 13)) if mode != 'same' else int(rng.integers(1, 13))
-    x = _traces(rng, n, L, dt, case['extremes'])
+    x = _traces(rng, n, L, dt, case['extremes'], case.get('swapped'))
     if case['extremes']:
         t.count('extreme_value_cases')
     precision = ['float32', 'float64'][int(rng.integers(2))]
@@ -285,6 +304,16 @@ def run_combo(case):
     def factory():
         return getattr(ho, op)(**kw)
     f = factory()
+    decoys = []
+    if case.get('decoys'):
+        # other combination preprocesses with the same frames built after this one and kept alive: each keeps its own operation
+        kw2 = {k_: v for k_, v in kw.items() if k_ != 'mean'}
+        decoys = [getattr(ho, o)(**kw2) for o in COMBOS if o != op]
+        info['built_afterwards'] = [o for o in COMBOS if o != op]
+        t.count('preprocesses_built_afterwards', len(decoys))
+    if case.get('swapped'):
+        t.count('other_byte_order_cases')
+        info['byte_order'] = x.dtype.byteorder
     xin = _ro(x)
     snap = x.tobytes()
     out = f(xin)
@@ -378,7 +407,7 @@ def run_timefreq(case):
     n = int(rng.integers(1, 8))
     k = int(rng.integers(1, 9)) * 2 - (1 if case['parity'] == 'odd' else 0)     # frame length
     L = k + int(rng.integers(0, 6))
-    x = _traces(rng, n, L, dt, False)
+    x = _traces(rng, n, L, dt, False, case.get('swapped'))
     mode = ['raw', 'raw', 'centered', 'standardized'][int(rng.integers(4))]
     same_len = op in ('Xcorr', 'WindowFFT', 'WindowFHT')
     conf = int(rng.integers(4))
@@ -496,7 +525,7 @@ def run_first(case):
     op, dt = case['op'], case['dtype']
     n = int(rng.integers(1, 10))
     L = int(rng.integers(1, 12))
-    x = _traces(rng, n, L, dt, case['extremes'])
+    x = _traces(rng, n, L, dt, case['extremes'], case.get('swapped'))
     if case['extremes']:
         t.count('extreme_value_cases')
     integral = np.dtype(dt).kind in 'iu'
